@@ -30,6 +30,11 @@ def check(repo, col, tier):
     col.rule("R-C02-kirchhoff", "branch-point weights proportional to absolute conductances", 1)
     col.rule("R-C02-call-roles", "argument roles / edge-type filters / capacitance of the sink", 6)
     col.rule("R-C02-sign", "conductance forms positive over positive atoms", 3)
+    from . import c09 as _c09, c01_solver as _cs
+    col.rule("R-C02-additive", "currents of several synapses onto one compartment add (charge balance includes every synapse)", 4)
+    _c09._additive(repo, col, "R-C02-additive")
+    col.rule("R-C02-elim", "the elimination steps of the custom solvers address each branch point with its own index", 10)
+    _cs._elim(repo, col, "R-C02-elim")
     col.rule("R-C02-stim", "stimulus: I/(2 pi r l)*1e5, same index for gather and additive scatter", 4)
     cable.check_axial(repo, col, {"roles": "R-C02-call-roles", "oracle": "R-C02-oracle", "recip": "R-C02-recip",
                                   "kirchhoff": "R-C02-kirchhoff", "sign": "R-C02-sign", "cap": "R-C02-call-roles"})
